@@ -68,6 +68,24 @@ func (i *Index) Search(key types.Key) (BlockHandle, bool) {
 	return BlockHandle{}, false
 }
 
+// LowerBound data block that contains the first entry greater than or equal to the key
+// i.e. the first data block whose EndKey is greater than or equal to the key
+func (i *Index) LowerBound(key types.Key) (BlockHandle, bool) {
+	low, high := 0, len(i.Entries)-1
+	for low <= high {
+		mid := low + ((high - low) >> 1)
+		if types.CompareKeys(i.Entries[mid].EndKey, key) >= 0 {
+			if mid == 0 || types.CompareKeys(i.Entries[mid-1].EndKey, key) < 0 {
+				return i.Entries[mid].DataHandle, true
+			}
+			high = mid - 1
+		} else {
+			low = mid + 1
+		}
+	}
+	return BlockHandle{}, false
+}
+
 func (i *Index) Scan(start, end types.Key) []BlockHandle {
 	var res []BlockHandle
 	for _, entry := range i.Entries {
